@@ -815,6 +815,9 @@ public:
     promise_with_default(promise_with_default &&other) = default;
     promise_with_default &operator=(promise_with_default &&other) {
         if (this != &other) {
+            //the promise being replaced ends here as if it was destroyed: its future
+            //gets its default value (the base class would just drop it)
+            this->set_value(std::move(def));
             promise<T>::operator=(std::move(other));
             def = std::move(other.def);
         }
@@ -838,7 +841,14 @@ public:
     using promise<T>::promise;
     promise_with_default_v() = default;
     promise_with_default_v(promise_with_default_v &&other) = default;
-    promise_with_default_v &operator=(promise_with_default_v &&other) = default;
+    promise_with_default_v &operator=(promise_with_default_v &&other) {
+        if (this != &other) {
+            //the promise being replaced ends here as if it was destroyed
+            this->set_value(val);
+            promise<T>::operator=(std::move(other));
+        }
+        return *this;
+    }
     ~promise_with_default_v() {
         this->set_value(val);
     }
@@ -858,7 +868,14 @@ public:
     using promise<T>::promise;
     promise_with_default_vp() = default;
     promise_with_default_vp(promise_with_default_vp &&other) = default;
-    promise_with_default_vp &operator=(promise_with_default_vp &&other) = default;
+    promise_with_default_vp &operator=(promise_with_default_vp &&other) {
+        if (this != &other) {
+            //the promise being replaced ends here as if it was destroyed
+            this->set_value(*val);
+            promise<T>::operator=(std::move(other));
+        }
+        return *this;
+    }
     ~promise_with_default_vp() {
         this->set_value(*val);
     }
